@@ -9,9 +9,9 @@ git checkout -q -- . ; git clean -fdq -e target
 git apply "$seed/patch.diff" || { echo "RESULT patch-does-not-apply"; exit 1; }
 t=$(cargo test --workspace --no-fail-fast --offline 2>&1 | grep -E "^test result" | awk '{p+=$4; f+=$6} END {print p" passed "f" failed"}')
 echo "suite with patch: $t"
-( cd "$seed/demo" && SLT_SRC="$wt" timeout 1200 bash ./run.sh >/tmp/confirm_demo_with.log 2>&1 ); with=$?
+( cd "$seed/demo" && SLT_SRC="$wt" timeout 1200 bash ./run.sh >/tmp/confirm_demo_with${CONFIRM_TAG:-}.log 2>&1 ); with=$?
 git checkout -q -- .
-( cd "$seed/demo" && SLT_SRC="$wt" timeout 1200 bash ./run.sh >/tmp/confirm_demo_without.log 2>&1 ); without=$?
+( cd "$seed/demo" && SLT_SRC="$wt" timeout 1200 bash ./run.sh >/tmp/confirm_demo_without${CONFIRM_TAG:-}.log 2>&1 ); without=$?
 echo "demo exit with patch: $with ; without patch: $without"
 if [ "$t" = "50 passed 0 failed" ] && [ $with -ne 0 ] && [ $without -eq 0 ]; then echo "RESULT confirmed"; else echo "RESULT NOT-confirmed"; fi
 rm -rf "$seed/demo/target"
